@@ -88,7 +88,7 @@ def v2_doc(sc, work):
     out_iv = {v: dict(encoding=dict(datatype=t), attributes=dict(long_name=v)) for v, t in [("pid", "i4"), ("X", "f8"), ("Y", "f8"), ("Z", "f8")]}
     doc = dict(version={"int": 2, "float": 2.0, "str": "2.0"}[fv.get("vform", "int")],
                time=dict(start=tval(fv, sc["start"]), stop=tval(fv, sc["stop"]), dt=pval(fv, sc["dt"]), **({"reference": tval(fv, sc["ref"])} if sc["fv"].get("hasref") else {})),
-               forcing=dict(module=sc.get("usermod") or "ladim.ROMS", filename=os.path.join(work, "f_*.nc" if fv["wildcard"] else first_file(sc))),
+               forcing=dict(module=sc.get("usermod") or "ladim.ROMS", filename=os.path.join(work, fv["wildname"] if fv["wildcard"] else first_file(sc))),
                tracker=dict(advection=fv["adv"]),
                state=dict(particle_variables=dict(release_time="time", **({"farmid": "int"} if fv["extracol"] else {}))),
                release=dict(release_file=os.path.join(work, "r_h.rls" if fv.get("hdr") else "r.rls"), continuous=fv["cont"], **({} if fv.get("hdr") else {"names": names(fv)})),
@@ -138,7 +138,7 @@ def v1_doc(sc, work):
     files = dict(particle_release_file=os.path.join(work, "r.rls"), output_file=os.path.join(work, "OUTNAME"))
     where = files if fv.get("v1files") else None          # version 1 accepts the forcing / grid file names in its `files` section as well
     gf = dict(module=sc.get("usermod") or ("ladim.gridforce.ROMS" if fv.get("v1mod") == "ladim" else "ladim1.gridforce.ROMS"))     # both names occur in version 1 files
-    (where if where is not None else gf)["input_file"] = os.path.join(work, "f_*.nc" if fv["wildcard"] else first_file(sc))
+    (where if where is not None else gf)["input_file"] = os.path.join(work, fv["wildname"] if fv["wildcard"] else first_file(sc))
     if fv["gridsec"] == "explicit":
         (where if where is not None else gf)["gridfile"] = os.path.join(work, "grid_only.nc")
     if fv["subgrid"] and fv["gridsec"] != "omitted":
@@ -309,6 +309,7 @@ def scenario(rng):
     fv["timeform"] = rng.choice(["str", "str", "native"])
     fv["perform"] = rng.choice(["int", "int", "list", "iso"])
     fv["vform"] = rng.choice(["int", "float", "str"])
+    fv["wildname"] = rng.choice(["f_*.nc", "f_??.nc", "f_[0-9][0-9].nc"]) if not base.get("naming") else "f_*.nc"     # every glob spelling of the same set of files
     fv["v1mod"] = rng.choice(["ladim1", "ladim"])
     fv["v1xf"] = rng.choice(["extra_forcing", "ibm_forcing"])
     if fv["xforce"]:
